@@ -102,7 +102,15 @@ class BrokerState:
                     continue
                 if waiter.has_requirements and not waiter.requirements:
                     commands.append(
-                        TickAddEvent(event=waiter.event, step_name=step_name)
+                        TickAddEvent(
+                            event=waiter.event,
+                            step_name=step_name,
+                            attempts=waiter.attempts,
+                            first_attempt_at=waiter.first_attempt_at,
+                            last_exception=waiter.last_exception,
+                            last_failed_at=waiter.last_failed_at,
+                            recovery_counts=dict(waiter.recovery_counts),
+                        )
                     )
         return commands
 
@@ -145,6 +153,11 @@ class BrokerState:
                     resolved_event=serializer.serialize(waiter.resolved_event)
                     if waiter.resolved_event
                     else None,
+                    attempts=waiter.attempts,
+                    first_attempt_at=waiter.first_attempt_at,
+                    last_exception=waiter.last_exception,
+                    last_failed_at=waiter.last_failed_at,
+                    recovery_counts=dict(waiter.recovery_counts),
                 )
                 for waiter in worker_state.collected_waiters
             ]
@@ -235,6 +248,11 @@ class BrokerState:
                         )
                         if waiter_data.resolved_event
                         else None,
+                        attempts=waiter_data.attempts,
+                        first_attempt_at=waiter_data.first_attempt_at,
+                        last_exception=waiter_data.last_exception,
+                        last_failed_at=waiter_data.last_failed_at,
+                        recovery_counts=dict(waiter_data.recovery_counts),
                     )
                 )
 
